@@ -25,20 +25,27 @@ BAND_REL = 1e-9
 
 
 def nbins_allowed(lmin, width):
-    """int(L_min / (2 width)) for the float inputs, as a set of admissible values.
+    """int(L_min / (2 width)) as the property writes it, evaluated in double precision, as a set of admissible values
+    (a single one).
 
-    The quotient is evaluated exactly (rational arithmetic on the binary values).  When it lies within 1e-9
-    (relative) of an integer m the floor is decided by rounding noise of whichever float expression a caller uses, so
-    both m-1 and m are admissible -- unless L_min and width are short dyadic numbers, for which every float evaluation
-    order is exact and the answer is crisp."""
+    Earlier versions admitted both m-1 and m whenever the exact rational quotient of the two doubles lay within 1e-9
+    of an integer m, on the grounds that "rounding noise of whichever float expression a caller uses" decides the
+    floor.  That was too generous: every evaluation order built from true divisions -- L/2/w, L/(2w), L/w/2, 0.5*L/w --
+    is the correctly rounded quotient of the SAME real number (doubling and halving are exact), so they all give the
+    same double and hence the same integer; L = 10, w = 0.1 gives 50 bins under each of them, which is also what a
+    user expects.  Only a different operation (floor division, reciprocal multiplication, decimal arithmetic) can give
+    49 there, and that is a visible change of the documented bin count (independent breaking change C03-C).
+    The float quotient below is computed from the two doubles with one division; no library code is involved."""
+    q = float(lmin) / (2.0 * float(width))
+    return {int(q)}
+
+
+def nbins_nominally_integer(lmin, width):
+    """True when the exact quotient of the two doubles is within 1e-9 (relative) of an integer: the class of inputs in
+    which floor division / reciprocal multiplication / truncation differ from true division."""
     q = Fraction(float(lmin)) / (2 * Fraction(float(width)))
     m = int(round(q))
-    if abs(q - m) > Fraction(1, 10**9) * max(q, 1):
-        return {int(q)}
-    crisp = all(Fraction(float(x)).denominator <= 2**12 and abs(x) < 2**12 for x in (lmin, width))
-    if crisp:
-        return {int(q)}
-    return {m - 1, m}
+    return abs(q - m) <= Fraction(1, 10**9) * max(q, 1)
 
 
 def shell_volumes(nbin, width, d):
